@@ -120,3 +120,100 @@ claim("C12",
            "no date literals in filters; source and destination directories distinct.",
       technique="Lean 4 proof over executable model + differential correspondence with the Python implementation",
       design_ref="DESIGN.md §5 C12")
+
+claim("C09",
+      text="Lean theorems (21) over an executable model of tsdb.write/_get_paths/write_database prove, for all histories and all "
+           "start states (including both physical forms with arbitrary mtimes), that the read equals the last overwrite followed "
+           "by the accepted later appends, and that exactly one file exists after any accepted write, compressed iff requested "
+           "and non-empty (so stale data cannot resurface). They also prove that failed writes change nothing, that "
+           "write_database (in place or not, with or without a new schema) gives every written relation exactly the pre-call "
+           "source records remade by column name, and that no file remains for unwritten target-schema relations. The results "
+           "are lifted to records through C08's split/join round trip.",
+      note="The model abstracts the file system: a relation is two optional line lists with logical mtimes, gzip is the identity, "
+           "no crash points. Tied to the code by the correspondence run (4209 cases quick incl. exhaustive histories up to length "
+           "3 over 6 start states; 34085 thorough). 'A rejected request changes nothing' holds in the model by construction; on "
+           "the real code it is checked by a byte digest after every rejected step. Schema text round trip, select_from/tsdb.open "
+           "interfaces, flags and comments: direct oracle only. 'Preserves every record' is read modulo the documented "
+           "replacement of an empty cell by Field.default. Relation names dot-free; source databases opened with autocast=False.",
+      technique="Lean 4 proof over executable model + differential correspondence with the Python implementation",
+      design_ref="DESIGN.md §5 C09")
+
+claim("C10",
+      text="Proved in Lean (16 theorems) for all inputs, for the model of the repaired itsdb.Table and TestSuite: every table "
+           "operation (append, extend, item and slice assignment with any slice/step, update, clear, commit, reload, reopen) "
+           "refines the same operation on a plain Python list, keeping the bookkeeping invariant, and this lifts by induction to "
+           "all histories (same list, same stored relation, same exception). Length, indexing, iteration and selection are "
+           "answered from the abstract list; commit stores exactly the list, is idempotent and can fail only on a compressed "
+           "relation; reload returns the committed state; process, with any buffer size, leaves every produced row exactly once "
+           "shown and stored, and a later commit adds nothing.",
+      note="The model is tied to the code only by the correspondence run on generated histories (bounded-exhaustive ≤2 ops from a "
+           "24-op menu on plain and gzip tables, random and long histories, process with scripted processor; full query set after "
+           "every step). Slicing with arbitrary start/stop/step is proved only for table[p:]; the general clause is compared and "
+           "oracle-checked, not proved. Assumed: a relation file is a list of rows; gzip is the identity; the record codec is the "
+           "identity on the generated typed values; FieldMapper is not modelled (oracle re-statement).",
+      technique="Lean 4 proof over executable model (refinement to a list) + differential correspondence with the Python implementation",
+      design_ref="DESIGN.md §5 C10")
+
+claim("C11",
+      text="Proved for all inputs of the model of tsql (19 theorems): the hash join equals the nested-loop comprehension (order and "
+           "multiplicity); each join step keeps exactly the pairs that agree on every shared key name; select is the left-deep "
+           "nested-loop join filtered by the condition and projected in order; every returned row is justified by one witness "
+           "row per relation satisfying the condition; the single-relation case is stored order and multiplicity; '*' emits "
+           "every non-key column and each key name exactly once; comparisons and '~' never match empty fields and '!~' always "
+           "does; a literal/column type mismatch never yields rows; the query parser inverts the printer on every normal-form "
+           "condition tree and every full select with repeated 'where' (conjunction).",
+      note="Parameters of the model, exercised only on the real code: the lexer regexes (the model parses token lists), "
+           "tsdb.cast/int() (cells and literals arrive with their cast values), re.search (shipped as a truth table). Row order of "
+           "joins whose plan depends on Python set iteration is compared as a multiset. Not proved: plan validity. The relational "
+           "oracle judges only tree-linked schemas (the property's space); cyclic key graphs are model-vs-code only (greedy pivot "
+           "choice there is an observation). Precedence of 'not' is undocumented and compared with the model only.",
+      technique="Lean 4 proof over executable model + differential correspondence with the Python implementation",
+      design_ref="DESIGN.md §5 C11")
+
+claim("C17",
+      text="Proved in Lean, core only, for every identifier normaliser (29 theorems): every hierarchy produced by the constructor "
+           "followed by any sequence of accepted and rejected update/__setitem__ calls satisfies the invariant WF "
+           "(history_invariant). From WF: children are the inverse of parents, ancestors/descendants are exactly the transitive "
+           "closure of parents and mutually inverse, the graph is acyclic, every node other than the top has the top as ancestor "
+           "(rooted, full strength after the F02 fix), no parent is an ancestor of another parent, subsumes is a partial order up "
+           "to the normaliser with the top greatest, compatible is symmetric and equals 'a common descendant-or-self exists', "
+           "every query is invariant under spellings the normaliser identifies, and the update loop never exhausts its fuel.",
+      note="The model is a hand transcription of hierarchy.py (repaired code). It is tied to the code only by the correspondence run "
+           "(quick 1659 histories, thorough ~20k, full query set after every call). Atomicity ('a rejected update changes "
+           "nothing') is true of the pure model by construction and is not a theorem: it is checked on the real code by re-asking "
+           "the full query set and snapshotting _hier/_loer/_data after every rejected call (1656 rejections per quick run come "
+           "after a partial insert). Assumed: string identifiers, ASCII for the lower-casing wrappers.",
+      technique="Lean 4 proof over executable model (invariant by induction over histories) + differential correspondence",
+      design_ref="DESIGN.md §5 C17")
+
+claim("C20",
+      text="Lean 4 theorems (25) over a model of commands.convert (format-name parsing, codec and converter selection, per-item "
+           "error isolation, and the header + joiner.join(parts) + footer assembly with its indent and -lines paths) prove, for "
+           "every item list including N = 0, for every codec module, with and without indentation and -lines, that the "
+           "assembled text is read back by the target family's document reader as exactly the converted items in order. The side "
+           "conditions on the HEADER/JOINER/FOOTER constants are discharged by decide on a table regenerated from the live codec "
+           "modules, so a changed constant breaks the proof. The converter table (identity iff representations agree; defined "
+           "exactly for mrs→dmrs, dmrs→mrs, mrs→eds) is proved.",
+      note="Items are opaque texts in the model; that each real item text satisfies the stated item predicate is checked on every "
+           "generated conversion, not proved. That the real codecs read each item back correctly, the same-representation "
+           "transcoding clause, the reading side (files, streams, TSQL selection) and the export-only block clause are decided by "
+           "the direct oracle on the real code only. Kept out of the generators: DMRS nodes of type 'u' (F11), mutual non-scopal "
+           "arguments in one scope (F08), newlines inside strings; indexedmrs without generated items.",
+      technique="Lean 4 proof over executable model + generated constant tables + differential correspondence",
+      design_ref="DESIGN.md §5 C20")
+
+claim("C03",
+      text="Proved for all graphs and all (properties, lnk, show_status, indent) (21 theorems): the native decoder run on the "
+           "encoder's token stream followed by anything returns the graph (exact top detection by the 2–3 token look-ahead, node "
+           "loop, property and edge blocks, constant escaping, alignments) and stops after the closing brace; re-encoding "
+           "reproduces the text; multi-graph documents are read graph by graph; suppression removes exactly properties plus type "
+           "(native) or alignment; status markers are exactly non-reachability from the top (BFS correctness); the JSON dictionary "
+           "form returns the same top and multiset of nodes in span order; the PENMAN triple form returns the graph for graphs "
+           "connected from the top. The main native clause carries the forced hypothesis that no untyped node has properties "
+           "(F38, known finding, decide-checked counter-example).",
+      note="The regex lexer is not modelled: the token view of the encoder output is compared with the real lexer on every "
+           "generated case, and damaged texts go through the real lexer into the model's parser. The json and penman libraries "
+           "are identity parameters; the oracle goes through their real text. Upper/lower case modelled for ASCII. Duplicate node "
+           "ids, dangling edge targets and non-symbol strings are outside the theorems (correspondence only).",
+      technique="Lean 4 proof over executable model + differential correspondence with the Python implementation",
+      design_ref="DESIGN.md §5 C03")
